@@ -77,7 +77,9 @@ pg.FLATTEN[MULTI_NESTED_KBI] = (pg.ERROR, pg.KBI)
 MULTI_EMPTY = "multi_empty"
 pg.FLATTEN[MULTI_EMPTY] = (pg.ERROR,)  # nothing inside: the MultipleExceptions itself is the error
 pg.FLATTEN[pg.RETVAL] = ()
-KINDS = pg.ALL_KINDS + (SKIP_NONSTR, MULTI_NESTED_KBI, MULTI_EMPTY, pg.RETVAL)
+SKIP_RAW_NONSTR = "skip_raw_nonstr"
+pg.FLATTEN[SKIP_RAW_NONSTR] = (pg.SKIP,)
+KINDS = pg.ALL_KINDS + (SKIP_NONSTR, MULTI_NESTED_KBI, MULTI_EMPTY, pg.RETVAL, SKIP_RAW_NONSTR)
 _base_perform = pg.perform
 
 
@@ -87,6 +89,12 @@ def _perform(case, ctx, stage, kind):
         ctx.raised.append((stage, kind, "%s!%s" % (stage, kind)))
         ctx.xlog.append(("raise", stage, kind))
         case.skipTest(42)
+    if kind == SKIP_RAW_NONSTR:
+        # "except ImportError as e: raise unittest.SkipTest(e)": the skip exception raised directly,
+        # with something that is not a str
+        ctx.raised.append((stage, kind, "%s!%s" % (stage, kind)))
+        ctx.xlog.append(("raise", stage, kind))
+        raise case.skipException(ImportError("no module named %s" % stage))
     if kind == MULTI_EMPTY:
         from testtools.runtest import MultipleExceptions
 
